@@ -19,6 +19,10 @@
 //!   `N <opts> <hex>`  parse one DIMACS input -> `OK <dump>` | `DIAG` | `PANIC ..`
 //!        (compared with the extracted model of coq/IO/DimacsParse.v when it is a `p cnf` file)
 //!   `M <opts> <family> <hex seed> <rseed>`  mutations of one DIMACS seed, one `N` line each
+//!   `X <fmt> <opts> <hex>`  parse one NNF / DIMACS input (all options) -> `OK <dump_full>` | `DIAG` | `PANIC ..`
+//!        (every field incl. variable order, order tree, names; compared with the extracted models of
+//!        coq/IO/NnfParse.v / DimacsSatParse.v / TreeParse.v)
+//!   `Y <fmt> <opts> <family> <hex seed> <rseed>`  mutations of one seed, one `X` line each
 //!   `S <opts> <n> [chain|vo|sat]`  input of processing depth <n> (AIGER gate chain, DIMACS order tree,
 //!        SAT formula), parsed in a thread with the default stack size -> `OK` | `DIAG` (a stack
 //!        overflow kills the process)
@@ -814,6 +818,159 @@ fn run_dimacs_mut(line: &str, out: &mut dyn FnMut(String)) {
 }
 
 // ---------------------------------------------------------------------------
+// C18q: NNF and the complete DIMACS reader, every field of the problem
+// ---------------------------------------------------------------------------
+
+fn fmt_tree(t: &oxidd_parser::Tree<usize>, out: &mut String) {
+    match t {
+        oxidd_parser::Tree::Leaf(n) => write!(out, "{n}").unwrap(),
+        oxidd_parser::Tree::Inner(ch) => {
+            out.push('[');
+            for (i, c) in ch.iter().enumerate() {
+                if i > 0 {
+                    out.push(',');
+                }
+                fmt_tree(c, out);
+            }
+            out.push(']');
+        }
+    }
+}
+
+/// every field of a problem with `details: Root(..)` in canonical text form: the variable set
+/// through its public accessors (len, order, order_tree, name of every variable), gates, root
+fn dump_full(p: &Problem) -> String {
+    let root = match &p.details {
+        ProblemDetails::Root(l) => fmt_lit(*l),
+        _ => return "NOT-ROOT".into(),
+    };
+    let vars = p.circuit.inputs();
+    let order = match vars.order() {
+        Some(o) => format!("[{}]", o.iter().map(|v| v.to_string()).collect::<Vec<_>>().join(",")),
+        None => "none".into(),
+    };
+    let mut tree = String::new();
+    match vars.order_tree() {
+        Some(t) => fmt_tree(t, &mut tree),
+        None => tree.push_str("none"),
+    }
+    let mut names = Vec::new();
+    if vars.has_names() {
+        for i in 0..vars.len() {
+            if let Some(n) = vars.name(i) {
+                names.push(format!("{i}={}", hex(n.as_bytes())));
+            }
+        }
+    }
+    let mut gates = Vec::new();
+    for g in p.circuit.iter_gates() {
+        let ins: Vec<String> = g.inputs.iter().map(|&l| fmt_lit(l)).collect();
+        gates.push(format!("{}:{}", kind_letter(g.kind), ins.join("&")));
+    }
+    format!(
+        "nv={} | order {} | tree {} | names {} {} | gates {} | root {}",
+        vars.len(),
+        order,
+        tree,
+        vars.has_names(),
+        names.join(" "),
+        gates.join(" "),
+        root
+    )
+}
+
+fn full_result(fmt: &str, mask: u64, data: &[u8]) -> String {
+    let o = opts(mask);
+    let r = std::panic::catch_unwind(std::panic::AssertUnwindSafe(|| match parse_direct(fmt, &o, data) {
+        Some(p) => {
+            post_ok(&p);
+            format!("OK {}", dump_full(&p))
+        }
+        None => "DIAG".into(),
+    }));
+    match r {
+        Ok(s) => s,
+        Err(e) => format!("PANIC {}", panic_msg(e)),
+    }
+}
+
+/// `Y <fmt> <opts> <family> <hex seed> <rseed>`
+fn run_full_mut(line: &str, out: &mut dyn FnMut(String)) {
+    let t: Vec<&str> = line.split_whitespace().collect();
+    let (fmt, mask, family, seed) = (t[1], t[2].parse::<u64>().unwrap(), t[3], unhex(t[4]));
+    let rseed: u64 = t.get(5).and_then(|x| x.parse().ok()).unwrap_or(1);
+    let (mut n, mut skipped) = (0u64, 0u64);
+    let mut seen = std::collections::HashSet::new();
+    mutations(family, &seed, rseed, &mut |data: &[u8]| {
+        // numbers size allocations (known finding) and the model's lists: 6 and more digits are
+        // outside this stream
+        if has_digit_run(data, 6) {
+            skipped += 1;
+            return;
+        }
+        if !seen.insert(data.to_vec()) {
+            return;
+        }
+        n += 1;
+        out(format!("X {fmt} {mask} {} -> {}", hex(data), full_result(fmt, mask, data)));
+    });
+    out(format!("{line} -> n={n} skipped={skipped}"));
+}
+
+/// further seeds for the order / clause-tree / SAT / NNF streams of C18q
+fn treeq_seeds() -> Vec<(&'static str, &'static [u8])> {
+    vec![
+        ("dimacs", b"c vo [[2, 3], [], [[1], 4,],]\nc 2 beta\nc 4 \xc3\xa4\np sat 4\n*(1 -2 +(3 4))\n"),
+        ("dimacs", b"c 3 z\nc 1\nc 2 y y\nc co [[0, 2], 1, 1]\np cnf 3 3\n1 2 0 -3 0 x 1 2 3 0\n"),
+        ("dimacs", b"c 2 b\nc vo [2,1]\nc 1 a\nc co [ 1 , [0 ] ]\np cnf 2 2\n1 0\n-1 2\n"),
+        ("dimacs", b"p satex 3\n=(1 2 3 xor(1 -(2)) (3) -(*()) +() =() xor())\n"),
+        ("dimacs", b"p sat 2\n*(1 ( ) +(2 -( )\n"),
+        ("dimacs", b"c co [0]\nc vo [1]\nc 1 \tv  1 \t\np cnf 1 1\n-1 0\n"),
+        ("dimacs", b"p satx 2\nxor(1 2)xor (1)\n"),
+        ("nnf", b"c vo [[2], 1, [3]]\nc 3 c\nc 1 a\nnnf 7 6 3\nL +1\nL -2\nl 3\nX 3 0 1 2\nO 2 2 0 1\no 0 1 4\nA 3 3 4 5\n"),
+        ("nnf", b"c 2\nc 1 n\nnnf 4 2 2\nA 1 3\nL 1\nL -2\nO 0 2 1 2 \r\n\n"),
+        ("nnf", b"nnf 3 2 1\nA 1 1\nA 1 0\nL 1\n"),
+        ("nnf", b"nnf 2 0 1\nb 0\nL -1\n"),
+    ]
+}
+
+/// C18q: mutations of the NNF seeds and of the DIMACS seeds under every option mask, every
+/// mutated input compared with the model readers
+fn gen_treeq_mut(tier: &str, rng: &mut Rng, em: &mut Emit) {
+    let thorough = tier == "thorough";
+    let mut all: Vec<(&str, &'static [u8])> = Vec::new();
+    for s in nnf_seeds() {
+        all.push(("nnf", s));
+    }
+    for s in dimacs_seeds() {
+        all.push(("dimacs", s));
+    }
+    all.extend(treeq_seeds());
+    for (fmt, s) in all {
+        // the unmodified seed under every option mask
+        for mask in 0..8u64 {
+            em.case("fullmut", &[format!("X {fmt} {mask} {}", hex(s))]);
+        }
+        for family in ["trunc", "subst", "delins", if thorough { "multi20000" } else { "multi600" }] {
+            // NNF looks at var_order (1) and check_acyclic (4), DIMACS at var_order (1) and clause_tree (2)
+            let masks: Vec<u64> = if thorough {
+                if fmt == "nnf" { vec![0, 1, 4, 5] } else { vec![0, 1, 2, 3] }
+            } else if family == "trunc" {
+                vec![7, 0]
+            } else {
+                vec![if fmt == "nnf" { *rng.pick(&[0u64, 1, 4, 5, 5, 5]) } else { *rng.pick(&[0u64, 1, 2, 3, 3, 3]) }]
+            };
+            for mask in masks {
+                em.case("fullmut", &[format!("Y {fmt} {mask} {family} {} {}", hex(s), rng.below(1 << 30))]);
+            }
+        }
+        if thorough {
+            em.case("fullmut", &[format!("Y {fmt} 7 substall {} 1", hex(s))]);
+        }
+    }
+}
+
+// ---------------------------------------------------------------------------
 // generators
 // ---------------------------------------------------------------------------
 
@@ -1303,6 +1460,11 @@ fn main() {
                 gen_aiger_mut(&tier, &mut rng, &mut em);
                 gen_dimacs_mut(&tier, &mut rng, &mut em);
             }
+            let mut rng = Rng::new(seed ^ 0xc18c);
+            let mut em = Emit { id: 0, shard, nshards, prefix: "q".into() };
+            if what == "treeq" {
+                gen_treeq_mut(&tier, &mut rng, &mut em);
+            }
         }
         _ => {
             // keep panic messages of caught panics off stderr (they are reported in the trace)
@@ -1348,6 +1510,12 @@ fn main() {
                             out(format!("{line} -> {r}"));
                         }
                         "M" => run_dimacs_mut(line, out),
+                        "X" => {
+                            let t: Vec<&str> = line.split_whitespace().collect();
+                            let r = full_result(t[1], t[2].parse::<u64>().unwrap(), &unhex(t[3]));
+                            out(format!("{line} -> {r}"));
+                        }
+                        "Y" => run_full_mut(line, out),
                         _ => panic!("unknown op line {line}"),
                     }
                 }
